@@ -4,21 +4,26 @@
 // Input (-in): NDJSON, one case per line (exactly what Gen_Render prints):
 //
 //	{"id":"..","T":<node>,"j":<tagged json>}
-//	node  = {"k":"Object|Array|String|Int|Float|Boolean|Enum|Scalar","n":bool,"fs":[field..],"it":[node]?,
-//	         "pt":[possible types],"tn":"type name","vals":[enum values],"inacc":[inaccessible enum values]}
+//	node  = {"k":"Object|Array|String|Int|Float|Boolean|Enum|Scalar|BigInt|Custom|StaticString|EmptyObject|EmptyArray|Null",
+//	         "n":bool,"fs":[field..],"it":[node]?,"pt":[possible types],"tn":"type name (StaticString: the value)",
+//	         "vals":[enum values],"inacc":[inaccessible enum values]}
 //	field = {"name":"response key","key":"json key in the subgraph data","on":[type names],
-//	         "pon":[{"d":depth,"names":[type names]}],"v":node}
-//	tagged json: {"t":"n"} {"t":"b","v":true} {"t":"i","v":3} {"t":"f","v":"1.5"} {"t":"s","v":"x"}
+//	         "pon":[{"d":depth,"names":[type names]}],"deny":bool,"v":node}
+//	tagged json: {"t":"n"} {"t":"b","v":true} {"t":"i","v":3} {"t":"f","v":"1.5"} {"t":"g","v":"2147483648"} {"t":"s","v":"x"}
 //	             {"t":"l","v":[..]} {"t":"o","k":[..],"v":[..]}   ({"t":"x"} = absent, only as an object member)
 //
 // Output (-out): NDJSON, one observation per (case, entry point):
 //
-//	{"id":"..","entry":"resolvable|resolver|arena","raw":"<bytes>","valid":bool,"dup":bool,"why":"..",
-//	 "panic":"..","err":"..","out":<tagged json of the whole response, when valid>}
+//	{"id":"..","entry":"resolvable|resolver|arena|ext","raw":"<bytes>","valid":bool,"dup":bool,"why":"..",
+//	 "panic":"..","site":"..","err":"..","out":<tagged json of the whole response, when valid>}
 //
 // Entry points: "resolvable" = Resolvable.Init + Resolve (the code under test, directly);
 // "resolver" = Resolver.ResolveGraphQLResponse with one fetch from a static data source answering {"data":j};
-// "arena" = Resolver.ArenaResolveGraphQLResponse with the same fetch.
+// "arena" = Resolver.ArenaResolveGraphQLResponse with the same fetch;
+// "ext" (-extmod N: every N-th case) = "resolver" with everything that writes `extensions` switched on: authorizer
+// extension, rate limit stats, subgraph extensions (allow list incl. the gateway's reserved keys, last-write), cost control.
+// "Custom" nodes use the resolver wrapStrings (string s -> {"c": s}, anything else an error). Every field is protected
+// (HasAuthorizationRule); when a case denies a field ("deny") the post-fetch authorizer authz is installed and denies it.
 // Go-side checks that need no oracle: the bytes are exactly one strict JSON value (encoding/json, an
 // implementation independent of astjson) and no object has a duplicate key. Everything else is judged by TLC.
 package main
@@ -38,6 +43,7 @@ import (
 	"runtime/debug"
 	"strconv"
 	"strings"
+	"time"
 
 	"github.com/wundergraph/graphql-go-tools/v2/pkg/ast"
 	"github.com/wundergraph/graphql-go-tools/v2/pkg/engine/datasource/httpclient"
@@ -73,6 +79,7 @@ type Field struct {
 	Key  string   `json:"key"`
 	On   []string `json:"on"`
 	Pon  []Pon    `json:"pon"`
+	Deny bool     `json:"deny"`
 	V    Node     `json:"v"`
 }
 
@@ -307,7 +314,12 @@ func build(n Node, path []string, parentType string) resolve.Node {
 				s.IsTypeName = true
 			}
 			fld.Info = &resolve.FieldInfo{Name: f.Name, ExactParentTypeName: n.Tn, ParentTypeNames: append([]string{n.Tn}, n.Pt...),
-				NamedType: f.V.Tn, Source: resolve.TypeFieldSource{IDs: []string{"sg"}, Names: []string{"sg"}}}
+				NamedType: f.V.Tn, Source: resolve.TypeFieldSource{IDs: []string{"sg"}, Names: []string{"sg"}},
+				// every field is protected; the harness authorizer (installed when the case denies something) denies DENY_*
+				HasAuthorizationRule: true}
+			if f.Deny {
+				fld.Info.Name = "DENY_" + f.Name
+			}
 			o.Fields = append(o.Fields, fld)
 		}
 		return o
@@ -325,8 +337,73 @@ func build(n Node, path []string, parentType string) resolve.Node {
 		return &resolve.Enum{Nullable: n.N, Path: path, TypeName: n.Tn, Values: n.Vals, InaccessibleValues: n.Inacc}
 	case "Scalar":
 		return &resolve.Scalar{Nullable: n.N, Path: path}
+	case "BigInt":
+		return &resolve.BigInt{Nullable: n.N, Path: path}
+	case "Custom":
+		return &resolve.CustomNode{CustomResolve: wrapStrings{}, Nullable: n.N, Path: path}
+	case "StaticString":
+		return &resolve.StaticString{Path: path, Value: n.Tn}
+	case "EmptyObject":
+		return &resolve.EmptyObject{}
+	case "EmptyArray":
+		return &resolve.EmptyArray{}
+	case "Null":
+		return &resolve.Null{}
 	}
 	panic("unknown node kind " + n.K)
+}
+
+// wrapStrings is the custom resolve func of "Custom" nodes: a JSON string s becomes {"c": s}, anything else is an error
+type wrapStrings struct{}
+
+func (wrapStrings) Resolve(ctx *resolve.Context, value []byte) ([]byte, error) {
+	v := bytes.TrimSpace(value)
+	if len(v) == 0 || v[0] != '"' {
+		return nil, fmt.Errorf("custom scalar cannot represent value: %s", v)
+	}
+	return append(append([]byte(`{"c":`), v...), '}'), nil
+}
+
+func denies(n Node) bool {
+	for _, f := range n.Fs {
+		if f.Deny || denies(f.V) {
+			return true
+		}
+	}
+	for _, it := range n.It {
+		if denies(it) {
+			return true
+		}
+	}
+	return false
+}
+
+// authz is the post-fetch authorizer: denies every coordinate whose field name starts with DENY_
+type authz struct{ ext bool }
+
+func (a authz) AuthorizePreFetch(ctx *resolve.Context, dataSourceID string, input json.RawMessage, coordinate resolve.GraphCoordinate) (*resolve.AuthorizationDeny, error) {
+	return nil, nil
+}
+func (a authz) AuthorizeObjectField(ctx *resolve.Context, dataSourceID string, object json.RawMessage, coordinate resolve.GraphCoordinate) (*resolve.AuthorizationDeny, error) {
+	if strings.HasPrefix(coordinate.FieldName, "DENY_") {
+		return &resolve.AuthorizationDeny{Reason: "denied by the harness"}, nil
+	}
+	return nil, nil
+}
+func (a authz) HasResponseExtensionData(ctx *resolve.Context) bool { return a.ext }
+func (a authz) RenderResponseExtension(ctx *resolve.Context, out io.Writer) error {
+	_, err := out.Write([]byte(`{"missingScopes":[]}`))
+	return err
+}
+
+type limiter struct{}
+
+func (limiter) RateLimitPreFetch(ctx *resolve.Context, info *resolve.FetchInfo, input json.RawMessage) (*resolve.RateLimitDeny, error) {
+	return nil, nil
+}
+func (limiter) RenderResponseExtension(ctx *resolve.Context, out io.Writer) error {
+	_, err := out.Write([]byte(`{"requestRate":1,"remaining":9}`))
+	return err
 }
 
 // ---------------------------------------------------------------- entry points
@@ -340,9 +417,14 @@ func (d staticDS) LoadWithFiles(ctx context.Context, headers http.Header, input 
 	return d.Load(ctx, headers, input)
 }
 
-func response(root *resolve.Object, data []byte) *resolve.GraphQLResponse {
+func response(root *resolve.Object, data []byte, ext bool) *resolve.GraphQLResponse {
 	input := `{"method":"POST","url":"http://sg","body":{"query":"{a z}"}}`
-	body := append(append([]byte(`{"data":`), data...), '}')
+	body := append([]byte(`{"data":`), data...)
+	if ext {
+		// subgraph extensions: a free key, a key outside the allow list, and keys the gateway reserves for itself
+		body = append(body, `,"extensions":{"k":{"n":1},"other":2,"authorization":{"x":1},"rateLimit":3,"trace":4,"queryPlan":5,"valueCompletion":6}`...)
+	}
+	body = append(body, '}')
 	return &resolve.GraphQLResponse{
 		Info: &resolve.GraphQLResponseInfo{OperationType: ast.OperationTypeQuery},
 		Fetches: resolve.Single(&resolve.SingleFetch{
@@ -377,7 +459,7 @@ func guarded(f func() ([]byte, error)) (raw []byte, perr, site string, err error
 	return
 }
 
-var resolver *resolve.Resolver
+var resolver, resolverExt *resolve.Resolver
 
 func run(c Case, entry string) Obs {
 	o := Obs{ID: c.ID, Entry: entry}
@@ -386,12 +468,16 @@ func run(c Case, entry string) Obs {
 		o.Err = "harness: bad payload: " + err.Error()
 		return o
 	}
+	deny := denies(c.T)
 	raw, p, site, err := guarded(func() ([]byte, error) {
 		root := build(c.T, nil, "Query").(*resolve.Object)
 		var out bytes.Buffer
 		switch entry {
 		case "resolvable":
 			ctx := resolve.NewContext(context.Background())
+			if deny {
+				ctx.SetAuthorizer(authz{})
+			}
 			r := resolve.NewResolvable(nil, resolve.ResolvableOptions{})
 			if err := r.Init(ctx, data.Bytes(), ast.OperationTypeQuery); err != nil {
 				return nil, fmt.Errorf("init: %w", err)
@@ -402,14 +488,31 @@ func run(c Case, entry string) Obs {
 		case "resolver":
 			ctx := resolve.NewContext(context.Background())
 			ctx.ExecutionOptions.DisableSubgraphRequestDeduplication = true
-			if _, err := resolver.ResolveGraphQLResponse(ctx, response(root, data.Bytes()), nil, &out); err != nil {
+			if deny {
+				ctx.SetAuthorizer(authz{})
+			}
+			if _, err := resolver.ResolveGraphQLResponse(ctx, response(root, data.Bytes(), false), nil, &out); err != nil {
 				return out.Bytes(), err
 			}
 		case "arena":
 			ctx := resolve.NewContext(context.Background())
 			ctx.ExecutionOptions.DisableSubgraphRequestDeduplication = true
 			ctx.ExecutionOptions.DisableInboundRequestDeduplication = true
-			if _, err := resolver.ArenaResolveGraphQLResponse(ctx, response(root, data.Bytes()), &out); err != nil {
+			if deny {
+				ctx.SetAuthorizer(authz{})
+			}
+			if _, err := resolver.ArenaResolveGraphQLResponse(ctx, response(root, data.Bytes(), false), &out); err != nil {
+				return out.Bytes(), err
+			}
+		case "ext":
+			// everything that writes into `extensions` at once: authorizer extension, rate limit stats, forwarded subgraph
+			// extensions (allow list, last-write), plus cost control statistics collected during the print walk
+			ctx := resolve.NewContext(context.Background())
+			ctx.ExecutionOptions.DisableSubgraphRequestDeduplication = true
+			ctx.SetAuthorizer(authz{ext: true})
+			ctx.SetRateLimiter(limiter{})
+			ctx.RateLimitOptions = resolve.RateLimitOptions{Enable: true, IncludeStatsInResponseExtension: true, Rate: 10, Burst: 10, Period: time.Second, RateLimitKey: "k"}
+			if _, err := resolverExt.ResolveGraphQLResponse(ctx, response(root, data.Bytes(), true), nil, &out); err != nil {
 				return out.Bytes(), err
 			}
 		}
@@ -432,6 +535,7 @@ func main() {
 	in := flag.String("in", "", "cases (NDJSON)")
 	outp := flag.String("out", "", "observations (NDJSON)")
 	entries := flag.String("entries", "resolvable,resolver,arena", "entry points to drive")
+	extmod := flag.Int("extmod", 0, "additionally drive entry \"ext\" (extensions on) for every N-th case (0 = never)")
 	flag.Parse()
 	f, err := os.Open(*in)
 	if err != nil {
@@ -450,6 +554,12 @@ func main() {
 	rctx, cancel := context.WithCancel(context.Background())
 	defer cancel()
 	resolver = resolve.New(rctx, resolve.ResolverOptions{MaxConcurrency: 4})
+	resolverExt = resolve.New(rctx, resolve.ResolverOptions{MaxConcurrency: 4, AllowCustomExtensionProperties: true,
+		ResolvableOptions: resolve.ResolvableOptions{
+			AllowedSubgraphExtensions:    map[string]struct{}{"k": {}, "authorization": {}, "rateLimit": {}, "trace": {}, "queryPlan": {}, "valueCompletion": {}},
+			ExtensionForwardingAlgorithm: resolve.ExtensionForwardingAlgorithmLastWrite,
+			EnableCostControl:            true,
+		}})
 	sc := bufio.NewScanner(f)
 	sc.Buffer(make([]byte, 1<<20), 1<<26)
 	enc := json.NewEncoder(w)
@@ -465,7 +575,11 @@ func main() {
 			fmt.Fprintf(os.Stderr, "bad case line %d: %v\n", n+1, err)
 			os.Exit(2)
 		}
-		for _, e := range strings.Split(*entries, ",") {
+		es := strings.Split(*entries, ",")
+		if *extmod > 0 && n%*extmod == 0 {
+			es = append(es, "ext")
+		}
+		for _, e := range es {
 			if err := enc.Encode(run(c, e)); err != nil {
 				fmt.Fprintln(os.Stderr, err)
 				os.Exit(2)
